@@ -2,8 +2,8 @@
 from reg._common import COMMON_ASSUME
 
 ENTRY = {
-    'extractors': ['translate_f90.py'],
-    'lean_files': ['Tables/SrcF90Triangle.lean', 'Tables/SrcF90Kernels.lean', 'Tables/C08.lean', 'Props/C08.lean', 'Props/C08More.lean', 'Props/C08Triangle.lean', 'Props/C08Rounding.lean', 'Props/C08TriangleRounding.lean'],
+    'extractors': ['translate_f90.py', 'translate_py.py'],
+    'lean_files': ['Tables/SrcPyCurve.lean', 'Tables/SrcF90Triangle.lean', 'Tables/SrcF90Kernels.lean', 'Tables/C08.lean', 'Props/C08.lean', 'Props/C08More.lean', 'Props/C08Triangle.lean', 'Props/C08Rounding.lean', 'Props/C08TriangleRounding.lean'],
     'lemma_files': ['Lemmas/RoundingTriElev.lean', 'Lemmas/RoundingTriPy.lean', 'Lemmas/Rounding.lean', 'Lemmas/RoundingMore.lean', 'Lemmas/TriDeriv.lean', 'Lemmas/Triangle.lean', 'Model/Triangle.lean', 'Lemmas/Shift.lean', 'Lemmas/Bridge.lean', 'Lemmas/VS.lean', 'Lemmas/Elevate.lean', 'Model/Basic.lean', 'Model/Curve.lean'],
     'script': 'props/c08.py',
     'rule': 'cases = (routine, number of nodes, dimension, net); elevation: scaled identity nets (all unit nets, outputs integral => '
